@@ -1,6 +1,6 @@
 import Mutagen.Model.Entry
 import Mutagen.Model.Reconcile
-import Mutagen.Model.Lifecycle
+import Mutagen.Model.SyncCycle
 /-
 Model of the remote endpoint protocol (core Lean only, executable).
 
